@@ -75,3 +75,84 @@ def run_measure(req):
 
 
 HANDLERS = {"measure": run_measure}
+
+
+def run_precomp(req):
+    """same pipeline on the real package with a table metric registered under the stub name"""
+    import os
+    import tempfile
+    import opfython.math.distance as d
+    import opfython.math.general as g
+    from opfython.models.supervised import SupervisedOPF
+    from opfython.models.semi_supervised import SemiSupervisedOPF
+    from opfython.models.unsupervised import UnsupervisedOPF
+    cfg = req["cfg"]
+    model, m, ntr, nte, ext = cfg["model"], cfg["m"], cfg["ntr"], cfg["nte"], cfg["ext"]
+    D = req["D"]
+    if D is None:
+        # the symbolic run raised before any weight mattered: any matrix will do
+        D = [[float(abs(i - j)) + 0.5 * (i > j) for j in range(m)] for i in range(m)]
+    tr = req["tr"] or list(range(ntr))
+    te = req["te"] or [r for r in range(m) if r not in tr][:nte]
+    Dl = [list(map(float, r)) for r in D]
+    saved = d.DISTANCES["euclidean"]
+    d.DISTANCES["euclidean"] = lambda a, b: Dl[int(a[0])][int(b[0])]
+    bad = []
+    obs = {}
+    try:
+        with tempfile.TemporaryDirectory() as td:
+            fname = os.path.join(td, "distances." + ext)
+            data = np.array([[float(i)] for i in range(m)])
+            g.pre_compute_distance(data, fname, "euclidean")
+            labels = cfg.get("labels") or [i % 2 for i in range(ntr)]
+            X = np.array([[float(r)] for r in tr])
+            Y = np.array(labels, dtype=int)
+            I = np.array(tr, dtype=int)
+            Xq = np.array([[float(r)] for r in te])
+            Iq = np.array(te, dtype=int)
+            res = {}
+            for tag in ("pre", "fly"):
+                kw = dict(distance="euclidean")
+                if tag == "pre":
+                    kw["pre_computed_distance"] = fname
+                try:
+                    if model == "sup":
+                        o = SupervisedOPF(**kw)
+                        o.fit(X, Y, I)
+                        p = o.predict(Xq, Iq)
+                    elif model == "semi":
+                        o = SemiSupervisedOPF(**kw)
+                        Xu = np.array([[float(ntr + i)] for i in range(cfg["nu"])])
+                        o.fit(X, Y, Xu, I)
+                        p = o.predict(Xq, Iq)
+                    else:
+                        o = UnsupervisedOPF(min_k=1, max_k=cfg.get("k", 1), **kw)
+                        o.fit(X, Y, I)
+                        p = o.predict(Xq, Iq) if nte else []
+                except Exception as ex:
+                    bad.append("pipeline-does-not-raise")
+                    obs["error_" + tag] = "%s: %s" % (type(ex).__name__, str(ex)[:200])
+                    continue
+                gph = o.subgraph
+                flat = [list(map(int, t)) for t in p] if isinstance(p, tuple) else [int(t) for t in p]
+                res[tag] = dict(cost=[float(nd.cost) for nd in gph.nodes], pred=[int(nd.pred) for nd in gph.nodes],
+                                plabel=[int(nd.predicted_label) for nd in gph.nodes], status=[int(nd.status) for nd in gph.nodes],
+                                cluster=[int(nd.cluster_label) for nd in gph.nodes], order=[int(x) for x in gph.idx_nodes], preds=flat)
+                if tag == "fly":
+                    gd = o.get_distances()
+                    rows = [int(nd.features[0]) for nd in gph.nodes]
+                    for i in range(len(rows)):
+                        for j in range(len(rows)):
+                            if gd[i][j] != Dl[rows[i]][rows[j]]:
+                                bad.append("gd-entry[%d,%d]" % (i, j))
+            if "pre" in res and "fly" in res:
+                for k in res["pre"]:
+                    if res["pre"][k] != res["fly"][k]:
+                        bad.append("same-%s" % k)
+                obs.update(res["pre"])
+    finally:
+        d.DISTANCES["euclidean"] = saved
+    return dict(obs=obs, violated=bad)
+
+
+HANDLERS["precomp"] = run_precomp
